@@ -179,7 +179,152 @@ INVARIANT InvSNFPointsDistinct
 """
 
 
+# ---------------------------------------------------------------------------
+# Primitive cell part
+# ---------------------------------------------------------------------------
+PCELLS = [
+    dict(name="fcc1", D=2, num=[[0, 0, 0], [0, 1, 1], [1, 0, 1], [1, 1, 0]], species=[0, 0, 0, 0]),
+    dict(name="nacl8", D=2, num=[[0, 0, 0], [1, 0, 0], [0, 1, 1], [1, 1, 1], [1, 0, 1], [0, 0, 1], [1, 1, 0], [0, 1, 0]],
+         species=[0, 1, 0, 1, 0, 1, 0, 1]),
+    dict(name="bcc2", D=2, num=[[0, 0, 0], [1, 1, 1]], species=[0, 0]),
+    dict(name="cscl", D=2, num=[[0, 0, 0], [1, 1, 1]], species=[0, 1]),
+    dict(name="ccent", D=2, num=[[0, 0, 0], [0, 0, 1], [1, 1, 0], [1, 1, 1]], species=[0, 1, 0, 1]),
+    dict(name="rhomb", D=3, num=[[0, 0, 0], [2, 1, 1], [1, 2, 2]], species=[0, 0, 0]),
+    dict(name="tric3", D=4, num=[[0, 0, 0], [1, 2, 1], [2, 1, 3]], species=[0, 1, 0]),
+    dict(name="sc1", D=1, num=[[0, 0, 0]], species=[0]),
+]
+PMATS = ["P", "F", "I", "A", "C", "R",
+         [[1, 0, 0], [0, 1, 0], [0, 0, 2]], [[1, 0, 0], [0, 1, 0], [0, 0, 0.5]], [[0, 1, 0], [1, 0, 0], [0, 0, 1]],
+         [[0.5, 0.5, 0], [0.5, -0.5, 0], [0, 0, 1]], [[1, 0, 0], [0, 1, 0], [1, 1, 0]]]
+PSMATS = [[[1, 0, 0], [0, 1, 0], [0, 0, 1]], [[2, 0, 0], [0, 2, 0], [0, 0, 2]], [[2, 0, 0], [0, 1, 0], [0, 0, 1]],
+          [[0, 1, 1], [1, 0, 1], [1, 1, 0]], [[-1, 1, 1], [1, -1, 1], [1, 1, -1]], [[2, 1, 0], [0, 2, 0], [0, 0, 1]],
+          [[3, 0, 0], [0, 3, 0], [0, 0, 1]], [[1, 1, 0], [-1, 1, 0], [0, 0, 2]], [[2, 0, 0], [0, 2, 0], [0, 0, 4]],
+          [[1, 0, 0], [0, 1, 0], [0, 0, 3]], [[2, -1, 0], [1, 1, 0], [0, 0, 1]]]
+
+
+def gen_prim_events(ctx):
+    from phonopy.structure.cells import get_primitive, get_primitive_matrix_by_centring
+
+    nprng = np.random.default_rng(ctx.seed + 17)
+    events = []
+    smats = list(PSMATS)
+    if not ctx.quick:
+        for _ in range(40):
+            while True:
+                m = [[ctx.rng.randint(-2, 2) for _ in range(3)] for _ in range(3)]
+                if 0 < det3(m) <= 6 and frame_points(m) <= 300:
+                    smats.append(m)
+                    break
+    for ac in PCELLS:
+        lat = xtal.triclinic_lattice(nprng)
+        masses = [10.0 + 3 * s for s in ac["species"]]
+        ucell = xtal.make_cell(ac["num"], ac["D"], lat, ac["species"], masses)
+        for S in smats:
+            if ctx.quick and len(ac["num"]) * abs(det3(S)) > 64:
+                continue
+            with contextlib.redirect_stdout(io.StringIO()):
+                sc = get_supercell(ucell, S)
+            if len(sc) == 0:
+                continue
+            Pd = 6
+            scale = 6 // np.gcd(ac["D"], 6)
+            D = ac["D"] * scale
+            u, resid = xtal.project_to_unit(sc.positions, ucell.cell, D)
+            assert resid < 1e-6
+            s2u = [int(x) for x in sc.s2u_map]
+            atoms = [dict(a=int(sc.u2u_map[s2u[k]]) + 1, sp=int(ac["species"][sc.u2u_map[s2u[k]]]),
+                          u=[int(v) for v in u[k]]) for k in range(len(sc))]
+            for pm in PMATS:
+                P = get_primitive_matrix_by_centring(pm) if isinstance(pm, str) else np.array(pm, dtype=float)
+                Pn = np.rint(P * Pd).astype(int)
+                assert np.abs(Pn - P * Pd).max() < 1e-9
+                inp = dict(D=D, S=S, Pn=Pn.tolist(), Pd=Pd, atoms=atoms)
+                try:
+                    tmat = np.dot(np.linalg.inv(np.array(S, dtype=float)), P)
+                    with contextlib.redirect_stdout(io.StringIO()):
+                        prim = get_primitive(sc, tmat)
+                    pu, presid = xtal.project_to_unit(prim.positions, ucell.cell, D)
+                    p2s = [int(x) + 1 for x in prim.p2s_map]
+                    attrs = all(prim.symbols[i] == sc.symbols[p2s[i] - 1] and
+                                abs(prim.masses[i] - sc.masses[p2s[i] - 1]) < 1e-12 for i in range(len(prim)))
+                    lat_ok = bool(np.abs(prim.cell - np.dot(P.T, ucell.cell)).max() < 1e-9)
+                    res = dict(status="built", p2s=p2s, s2p=[int(x) + 1 for x in prim.s2p_map],
+                               p2p=[[int(k) + 1, int(v) + 1] for k, v in sorted(prim.p2p_map.items(), key=lambda kv: kv[1])],
+                               perms=[[int(x) + 1 for x in row] for row in prim.atomic_permutations],
+                               pu=[[int(v) for v in x] for x in pu], latticeOK=lat_ok, attrsOK=bool(attrs),
+                               exact=bool(presid < 1e-6))
+                except Exception as e:  # phonopy refuses the input
+                    res = dict(status="error")
+                events.append(dict(inp=inp, result=res))
+                ctx.count(("prim", ac["name"], tuple(map(tuple, S)), str(pm)))
+    return events
+
+
+MC_PRIM = """---- MODULE MC_PrimitiveTrace ----
+EXTENDS PrimitiveTrace
+MCEvents == {%s}
+====
+"""
+CFG_PRIM = """INIT TInit
+NEXT TNext
+CONSTANTS
+ Events <- MCEvents
+CHECK_DEADLOCK FALSE
+INVARIANT ImplP2S
+INVARIANT ImplS2P
+INVARIANT ImplPerms
+INVARIANT ImplP2P
+INVARIANT ImplPrimAtoms
+INVARIANT ImplPrimLattice
+INVARIANT ImplPrimAttributes
+INVARIANT ImplPrimExact
+INVARIANT ImplAcceptsP
+INVARIANT ImplRejectsP
+INVARIANT InvMachine
+INVARIANT ConformsPStatus
+INVARIANT ConformsPMaps
+"""
+
+
+def run_primitive(ctx):
+    from harness import tlc as tlcmod
+    events = gen_prim_events(ctx)
+    nb = sum(1 for e in events if e["result"]["status"] == "built")
+    ctx.extra["primitive_events"] = len(events)
+    ctx.extra["primitive_built"] = nb
+    ctx.extra["primitive_rejected"] = len(events) - nb
+    ctx.traces += len(events)
+    ctx.sample(dict(kind="primitive", inp={k: v for k, v in events[1]["inp"].items() if k != "atoms"},
+                    natoms=len(events[1]["inp"]["atoms"]), result=events[1]["result"]))
+    mc = MC_PRIM % ",\n".join(to_tla(e) for e in events)
+    res = ctx.tlc("MC_PrimitiveTrace", cfg_text=CFG_PRIM, extra_files={"MC_PrimitiveTrace.tla": mc},
+                  requirement=False, extra_args=("-continue",), keep=True)
+    violated = sorted(set(n for n, _ in res.violations))
+    witness = {}
+    for n, tr in res.violations:
+        if n not in witness and tr:
+            e = tr[-1][1].get("ev", {})
+            inp = e.get("inp", {})
+            witness[n] = dict(S=inp.get("S"), Pn=inp.get("Pn"), Pd=inp.get("Pd"), natoms=len(inp.get("atoms", [])),
+                              status=e.get("result", {}).get("status"))
+    ctx.extra["primitive_violated_invariants"] = violated
+    req = [v for v in violated if v.startswith("Impl") or v.startswith("Inv")]
+    for v in req:
+        ctx.violation("primitive:" + v, "C04 primitive requirement %s fails on the implementation's result" % v,
+                      dict(invariant=v, witness=witness.get(v)))
+    drift = [v for v in violated if v.startswith("Conforms")]
+    if drift and not req:
+        ctx.extra["SPEC-DRIFT-primitive"] = dict(invariants=drift, witness={v: witness.get(v) for v in drift})
+        print("SPEC-DRIFT C04 primitive: %s (requirement intact)" % drift)
+    tlcmod.cleanup(res)
+
+
 def run(ctx):
+    run_supercell(ctx)
+    run_primitive(ctx)
+
+
+def run_supercell(ctx):
     ctx.rule = ("every (unit cell, supercell matrix S, construction style) is one case; S ranges over "
                 "integer matrices with entries in -1..1 (all of them in the thorough tier) plus random ones "
                 "with entries -2..3, |det|<=8; non-trivial = distinct (cell,S,style)")
